@@ -53,3 +53,15 @@ Lemma order_syncutilGo :
    b "cancel"; b "context.Cause"] /\
   go_final_return = ["context.Cause(ctx)"%string].
 Proof. split; reflexivity. Qed.
+
+(* Copy: a blank destination reference means the source reference (CopyTop.eff_ref) *)
+Lemma rule_blank_dstref : copy_blank_dstref_rule = ["dstRef == ''"%string; "dstRef = srcRef"%string].
+Proof. reflexivity. Qed.
+
+(* cas.Proxy: Fetch serves from the cache when it can, else reads the source and feeds the cache;
+   with StopCaching (MapRoot / platform selection) it goes through FetchCached, which reads the source
+   WITHOUT feeding the cache (phases NeedFetch/MF1/MF2 and [cached]; CopyTop.prologue_fetches) *)
+Lemma order_proxy :
+  calls_proxyFetch = [b "p.FetchCached"; b "p.Cache.Fetch"; b "p.ReadOnlyStorage.Fetch"; b "p.Cache.Push"] /\
+  calls_proxyFetchCached = [b "p.Cache.Exists"; b "p.Cache.Fetch"; b "p.ReadOnlyStorage.Fetch"].
+Proof. split; reflexivity. Qed.
